@@ -1,6 +1,7 @@
 CONSTANT N = 3
 CONSTANT M = 4
 CONSTANT M2 = 4
+CONSTANT M3 = 4
 INIT MCInit
 NEXT Step
 INVARIANT Fidelity
